@@ -282,8 +282,24 @@ class CFG:
     """All paths src -> (first node satisfying dst_pred), each back edge taken at
     most `back_limit` times. Yields lists of (node, label)."""
     count = 0
+    # prune: only walk through nodes from which a destination is reachable
+    dsts = [n for n in self.nodes if dst_pred(n)]
+    can = set(dsts)
+    work = list(dsts)
+    while work:
+      m = work.pop()
+      for a, lab in self.pred[m]:
+        if a not in can and (edge_ok is None or edge_ok(a, m, lab)):
+          can.add(a)
+          work.append(a)
+    if src not in can:
+      return
+    steps = 0
     stack = [(src, [(src, None)], collections.Counter())]
     while stack:
+      steps += 1
+      if steps > 200 * max_paths + 100000:
+        raise Undecided('path enumeration exceeded its budget in %s' % getattr(self.func, 'name', '?'))
       n, path, used = stack.pop()
       if n is not src and dst_pred(n):
         count += 1
@@ -292,6 +308,8 @@ class CFG:
           return
         continue
       for m, lab in self.successors(n, edge_ok):
+        if m not in can:
+          continue
         if lab in ('back', 'continue'):
           if used[(n.id, m.id)] >= back_limit:
             continue
